@@ -11,9 +11,27 @@ For each /verif/seeded/<name>/ (patch.diff, demo test, meta.json {property, demo
 """
 import json, os, subprocess, sys, time, glob
 
-ROOT = os.path.dirname(os.path.dirname(os.path.abspath(__file__)))
-REPO = "/repo"
-ENV = dict(os.environ, GOFLAGS="-mod=mod", GOPROXY="off", GOSUMDB="off", GOTOOLCHAIN="local")
+ROOT = os.path.dirname(os.path.dirname(os.path.abspath(__file__)))   # where seeded/ lives (results are written here)
+# Isolated mode (default): checks run in scratch worktrees of /verif HEAD and /repo HEAD so that neither the
+# developer's /repo nor /verif's build directories are disturbed. SEED_INPLACE=1 uses /verif and /repo directly.
+INPLACE = os.environ.get("SEED_INPLACE") == "1"
+RUN = ROOT if INPLACE else "/tmp/w/seed-verif"
+REPO = "/repo" if INPLACE else "/tmp/w/seed-repo"
+ENV = dict(os.environ, GOFLAGS="-mod=mod", GOPROXY="off", GOSUMDB="off", GOTOOLCHAIN="local", VERIF_REPO=REPO)
+
+
+def prepare():
+    if INPLACE:
+        return
+    for base, wt in (("/verif", RUN), ("/repo", REPO)):
+        head = subprocess.run(["git", "-C", base, "rev-parse", "HEAD"], stdout=subprocess.PIPE, text=True).stdout.strip()
+        if not os.path.isdir(wt):
+            subprocess.run(["git", "-C", base, "worktree", "add", "-q", "--detach", wt, head], check=True)
+        else:
+            subprocess.run(["git", "-C", wt, "checkout", "-q", "--detach", head], check=True)
+            subprocess.run(["git", "-C", wt, "checkout", "--", "."], check=True)
+    rc, out = sh([os.path.join(RUN, "check"), "setup"], cwd=RUN, timeout=3600)
+    assert rc == 0, out[-2000:]
 
 
 def sh(cmd, cwd=None, timeout=3600):
@@ -53,7 +71,7 @@ def run(name, tiers=("quick", "thorough")):
         # 3. the checks
         for tier in tiers:
             t0 = time.time()
-            rcc, outc = sh([os.path.join(ROOT, "check"), meta["property"], tier], cwd=ROOT, timeout=7200)
+            rcc, outc = sh([os.path.join(RUN, "check"), meta["property"], tier], cwd=RUN, timeout=7200)
             lines = [l for l in outc.split("\n") if l.startswith("VIOLATION") or l.startswith("KNOWN-FINDING")]
             res[tier] = {"exit": rcc, "lines": [l[:300] for l in lines], "wall_s": round(time.time() - t0, 1)}
             viol = [l for l in lines if l.startswith("VIOLATION")]
@@ -74,13 +92,15 @@ def run(name, tiers=("quick", "thorough")):
             os.remove(demo_dst)
         clean()
         # put the evidence/Gen back to the unchanged tree's
-        sh([os.path.join(ROOT, "check"), meta["property"], "quick"], cwd=ROOT, timeout=3600)
+        if INPLACE:
+            sh([os.path.join(RUN, "check"), meta["property"], "quick"], cwd=RUN, timeout=3600)
     json.dump(res, open(os.path.join(d, "result.json"), "w"), indent=1)
     return res
 
 
 if __name__ == "__main__":
     names = sys.argv[1:] or sorted(os.path.basename(p) for p in glob.glob(os.path.join(ROOT, "seeded", "*")) if os.path.isdir(p))
+    prepare()
     for n in names:
         r = run(n)
         print(json.dumps({k: r.get(k) for k in ("name", "property", "demo_passes_unchanged", "demo_fails_patched", "suite_passes_patched", "detected_by", "concrete_input", "error")}))
